@@ -192,6 +192,7 @@ func (cs *concurrentStrategy) Inc(APIStream public_types.APIStreamI) error {
 	if !increased {
 		return nil
 	}
+	verifhook.Point("cq.inc.after_sadd", "quota", cs.quotaID, "req", reqID)
 
 	if cs.parent != nil {
 		if err := cs.parent.GetQuota().Inc(APIStream); err != nil {
